@@ -1,10 +1,10 @@
 #!/bin/bash
 # tools/collect_benign.sh <Cxx> : copy the agent-made behaviour-preserving edits of /tmp/benign/<Cxx>/_benign into selftest/benign/agent-<Cxx>-N.patch
-P=$1; D=/tmp/benign/$P/_benign
+P=$1; D=/tmp/benign/$P/_benign; T=${2:-$P}
 [ -d $D ] || { echo "no $D"; exit 1; }
 for f in $D/edit*.patch; do
   n=$(basename $f .patch | sed 's/edit//')
-  [ -s $f ] && cp $f /verif/selftest/benign/agent-$P-$n.patch
+  [ -s $f ] && cp $f /verif/selftest/benign/agent-$T-$n.patch
 done
-[ -f $D/notes.json ] && cp $D/notes.json /verif/selftest/benign/agent-$P.notes.json
+[ -f $D/notes.json ] && cp $D/notes.json /verif/selftest/benign/agent-$T.notes.json
 git -C /repo worktree remove --force /tmp/benign/$P && echo "collected $P"
